@@ -188,7 +188,8 @@ class DeepChainSpace(Space):
 
 def families(tier):
     if tier == 'quick':
-        return [AcqFamily(AcqSpace(2)), AcqFamily(AcqSpace(1, two_level=True, reps=(1, 2, 3)), 'D', structure_path=True),
+        # tags are arbitrary strings: one of them has upper-case characters and a trailing blank, and 'a' / 'A' are different tags
+        return [AcqFamily(AcqSpace(2, tags=('', 'Ab '))), AcqFamily(AcqSpace(1, two_level=True, reps=(1, 2, 3), tags=('a', 'A')), 'D', structure_path=True),
                 AcqFamily(AcqSpace(2, tags=('',), reps=(2,), extra=(('X', 0),)), 'H', structure_path=True),
                 AcqFamily(DeepChainSpace(2, reps=(2,), modes=('own',)), 'H')]
     return [AcqFamily(AcqSpace(2, tags=('', 'a', 'b'), reps=(1, 2, ('reg', 3)))), AcqFamily(AcqSpace(2, tags=('', 'a'), two_level=True, extra=(('X', 0),), reps=(1, 2)), 'D'),
